@@ -24,7 +24,8 @@ def build(shape, rng, solver_results=False):
 
     nt, ns, nl = shape["nt"], shape["ns"], shape["nl"]
     ny, nx = 4, 5
-    towers = [{"name": "tw%d" % (i + 1), "lat": 50.0 + 0.0011 * (i + 1), "lon": 11.0 - 0.0007 * (i + 1), "z_m": 5.0 + 1.5 * i} for i in range(nt)]
+    names = ["west_mast", "T10", "east_mast", "T2"]   # deliberately not in sorted order
+    towers = [{"name": names[i], "lat": 50.0 + 0.0011 * (i + 1), "lon": 11.0 - 0.0007 * (i + 1), "z_m": 5.0 + 1.5 * i} for i in range(nt)]
     met = {"mol": [-50.0 - 3.0 * t for t in range(ns)], "wind_speed": [2.0 + 0.25 * t for t in range(ns)], "wind_dir": [10.0 + 33.0 * t for t in range(ns)]}
     if shape["forcing"] == "ustar":
         met["ustar"] = [0.2 + 0.01 * t for t in range(ns)]
